@@ -168,7 +168,7 @@ void splinetable<Alloc>::fit(const ::ndsparse& data,
 			                           i, order[i],
 			                           porder,
 			                           (smoothing.size()>1?smoothing[i]:smoothing[0]),
-			                           i==monodim, penalty,
+			                           monodim, penalty,
 			                           &cholmod_state);
 		}
 	}
